@@ -209,6 +209,19 @@ class WrapperMixin(object):
         self.splicer_names[-1] = name
         self.splicer_path = ".".join(self.splicer_names) + "."
 
+    @staticmethod
+    def _literal_lines(code):
+        """Protect user supplied lines from write_lines.
+        A line which starts with @, ^, + or - or which ends with +
+        is user code, not a formatting directive: mark it literal.
+        Preprocessor lines (#) are already written as is.
+        """
+        for line in code:
+            if (isinstance(line, str) and line[:1] != "#" and
+                    (line[:1] in ("@", "^", "+", "-") or line[-1:] == "+")):
+                line = "@" + line
+            yield line
+
     def _create_splicer(self, name, out, default=None, force=None):
         """Insert a splicer with *name* into list *out*.
         If *force* is defined, use it for contents. Otherwise,
@@ -234,10 +247,10 @@ class WrapperMixin(object):
             )
         added_code = True
         if force is not None:
-            out.extend(force)
+            out.extend(self._literal_lines(force))
         elif name in self.splicer_stack[-1]:
             code = self.splicer_stack[-1][name]
-            out.extend(code)
+            out.extend(self._literal_lines(code))
         elif default is not None:
             out.extend(default)
         else:
